@@ -10,7 +10,16 @@ mod verif_cobs {
     const W: usize = 272;
 
     #[kani::proof]
-    fn cobs_step_slice() {
+    fn cobs_step_slice() { step_contract(false) }
+
+    /// Flavor::try_extend contract for Cobs<Slice>, one-byte block: the SAME step contract must hold when the byte arrives
+    /// through try_extend(&[d]) (serialize_str / serialize_bytes deliver their payload that way). On the pinned tree Cobs
+    /// has no try_extend override (trait default = byte-wise pushes); an override must meet the same contract.
+    #[kani::proof]
+    #[kani::unwind(3)]
+    fn cobs_extend1_slice() { step_contract(true) }
+
+    fn step_contract(via_extend: bool) {
         let orig: [u8; W] = kani::any();
         let mut arr = orig;
         let cap: usize = kani::any();
@@ -24,7 +33,7 @@ mod verif_cobs {
             let start = arr.as_mut_ptr();
             let flav = Slice { start, cursor: unsafe { start.add(len) }, end: unsafe { start.add(cap) }, _pl: PhantomData };
             let mut c = Cobs { flav, cobs: EncoderState::verif_new(ci, n as u8, n as u8) };
-            res = c.try_push(d);
+            res = if via_extend { c.try_extend(&[d]) } else { c.try_push(d) };
             let p = c.cobs.verif_parts();
             ci2 = p.0;
             n2 = p.1 as usize;
@@ -163,4 +172,64 @@ mod verif_cobs {
             assert!(matches!(res, Err(Error::SerializeBufferFull)));
         }
     }
+
+    /// Flavor::try_extend contract for Cobs<Slice>, multi-byte blocks: extending with a block of <= 3 bytes equals pushing
+    /// its bytes one by one (same Ok/Err, same encoder state, same output), from the states around every transition: a
+    /// fresh block (n = 1), one byte before a full block (n = 253) and a full block (n = 254). Concrete states and a
+    /// concrete initial buffer keep an override that uses bulk copies within CBMC's reach.
+    fn extend_vs_pushes<const N: usize>() {
+        const WE: usize = 262;
+        let mut a1 = [0x55u8; WE];
+        let mut a2 = [0x55u8; WE];
+        let cap: usize = WE - 2;
+        let (ci, n, len) = (0usize, N, N);
+        let d: [u8; 3] = kani::any();
+        let dl: usize = kani::any();
+        kani::assume(dl <= 3);
+        let (r1, p1, l1);
+        {
+            let start = a1.as_mut_ptr();
+            let flav = Slice { start, cursor: unsafe { start.add(len) }, end: unsafe { start.add(cap) }, _pl: PhantomData };
+            let mut c = Cobs { flav, cobs: EncoderState::verif_new(ci, n as u8, n as u8) };
+            r1 = c.try_extend(&d[..dl]).is_ok();
+            p1 = c.cobs.verif_parts();
+            l1 = c.flav.cursor as usize - c.flav.start as usize;
+        }
+        let mut r2 = true;
+        let (p2, l2) = {
+            let start = a2.as_mut_ptr();
+            let flav = Slice { start, cursor: unsafe { start.add(len) }, end: unsafe { start.add(cap) }, _pl: PhantomData };
+            let mut c = Cobs { flav, cobs: EncoderState::verif_new(ci, n as u8, n as u8) };
+            let mut i = 0;
+            while i < dl {
+                if c.try_push(d[i]).is_err() {
+                    r2 = false;
+                    break;
+                }
+                i += 1;
+            }
+            (c.cobs.verif_parts(), c.flav.cursor as usize - c.flav.start as usize)
+        };
+        assert!(r1 == r2, "SPEC: try_extend succeeds exactly when the byte-wise pushes do");
+        if r1 {
+            assert!(p1.0 == p2.0 && p1.1 == p2.1 && p1.2 == p2.2 && l1 == l2, "SPEC: encoder state after try_extend == after byte-wise pushes");
+            // only the code byte (index 0) and the bytes from len on can differ from the initial buffer
+            assert!(a1[0] == a2[0], "SPEC: code byte after try_extend == after byte-wise pushes");
+            let mut k = N;
+            while k < N + 5 {
+                assert!(a1[k] == a2[k], "SPEC: output after try_extend == after byte-wise pushes");
+                k += 1;
+            }
+        }
+    }
+
+    #[kani::proof]
+    #[kani::unwind(6)]
+    fn cobs_extend_equals_pushes_n1() { extend_vs_pushes::<1>() }
+    #[kani::proof]
+    #[kani::unwind(6)]
+    fn cobs_extend_equals_pushes_n253() { extend_vs_pushes::<253>() }
+    #[kani::proof]
+    #[kani::unwind(6)]
+    fn cobs_extend_equals_pushes_n254() { extend_vs_pushes::<254>() }
 }
